@@ -102,18 +102,39 @@ class NdE:
 
     def copy(self):
         """the same array in a forked state (ids are kept, so the view links stay valid)"""
-        c = self.detached()
-        for k in ("viewof", "views"):  # numpy views: (root Ref, positions in the root) / ((view Ref, positions), ...)
+        c = NdE(self.shape, self.data)
+        # optional marks set by the numpy model: forced dtype, view of a buffer, numpy views ((root Ref, positions in the
+        # root) / ((view Ref, positions), ...)), memory layout not known to be C-contiguous, ndarray.flat
+        for k in ("dtype", "shared", "viewof", "views", "layout_unknown", "flatiter", "cursor"):
             if k in self.__dict__:
                 setattr(c, k, self.__dict__[k])
         return c
 
-    def detached(self):
-        """an independent array with the same contents (np.copy, deepcopy, pickle): owns its memory, no view links"""
+    def c_contiguous(self):
+        """is the array stored in C (row-major) order without gaps?  True / False / None (layout not known).  The model
+        keeps elements in LOGICAL order; the memory layout only decides whether ravel() / reshape() can return a view.
+        A fresh array is C-contiguous; a view is iff its positions in the root are consecutive."""
+        if len(self.data) <= 1:
+            return True
+        if self.__dict__.get("layout_unknown"):
+            return None
+        vo = self.__dict__.get("viewof")
+        if vo is None:
+            return True
+        pos = vo[1]
+        return all(pos[k] == pos[0] + k for k in range(len(pos)))
+
+    def detached(self, order="K"):
+        """an independent array with the same contents: owns its memory, no view links.  order="C": ndarray.copy() /
+        flatten() (row-major memory).  order="K" (np.array(a), copy.copy, deepcopy, pickle, astype, results of elementwise
+        operations): numpy keeps the memory order of the source, so the copy of a transposed / Fortran-ordered array is NOT
+        C-contiguous: its layout is marked unknown (ravel / reshape of it are then refused instead of guessed)."""
         c = NdE(self.shape, self.data)
         for k in ("dtype", "shared"):  # optional marks set by the numpy model (forced object dtype, view of a buffer)
             if k in self.__dict__:
                 setattr(c, k, self.__dict__[k])
+        if order == "K" and len(self.shape) >= 2 and self.c_contiguous() is not True:
+            c.layout_unknown = True
         return c
 
 
